@@ -180,6 +180,39 @@ func (r *rng) grammarStringL(nearLimits bool) string {
 		}
 		return sign + r.mixCase([]string{"nan", "snan"}[r.intn(2)]) + p
 	}
+	if nearLimits && r.coin(8) {
+		// exactly at the edge of the package limits, with leading zeros in the mantissa: the adjusted exponent
+		// of the VALUE (not of the string) is 99999, 100000 or 100001, or the exponent of the coefficient is
+		// -100001, -100000 or -99999
+		ip := strings.Repeat("0", r.rangeI(0, 3)) + []string{"", "", r.digitsStr(r.rangeI(1, 3))}[r.intn(3)]
+		fr := strings.Repeat("0", r.rangeI(0, 3)) + r.digitsStr(r.rangeI(1, 4))
+		m := ip + "." + fr
+		if ip == "" && r.coin(50) {
+			m = "." + fr
+		}
+		if r.coin(25) {
+			m = ip + r.digitsStr(1)
+			fr = ""
+		}
+		// position of the first significant digit
+		all := strings.TrimSuffix(ip, "") + fr
+		if fr == "" {
+			all = m
+		}
+		lead := len(all) - len(strings.TrimLeft(all, "0"))
+		intLen := len(ip)
+		if fr == "" {
+			intLen = len(m)
+		}
+		// adjusted exponent of the value = written exponent + (intLen - 1 - lead)
+		var ev int
+		if r.coin(60) {
+			ev = r.pick([]int{99999, 100000, 100001}) - (intLen - 1 - lead)
+		} else {
+			ev = r.pick([]int{-100001, -100000, -99999}) + len(fr)
+		}
+		return sign + m + []string{"e", "E"}[r.intn(2)] + fmt.Sprint(ev)
+	}
 	var m string
 	switch r.intn(4) {
 	case 0:
